@@ -11,6 +11,18 @@ TB = ("Coq 8.16.1 kernel (+vm_compute); no axioms of our own (Print Assumptions 
       "tied by regeneration/correspondence on the cases run")
 
 CHECKS = {
+    "C05": dict(
+        engine="E6 front",
+        technique="Coq proofs of the logic slices an executable model can carry (print_msg buffer arithmetic over constants regenerated from the tree, the `use` include-stack state machine, a verified outcome classifier); malformed-input search (token mutation, grammar-aware faults, raw bytes, long/deep inputs, use chains/cycles/missing modules) under ASan/UBSan with the extracted classifier as oracle",
+        text="proof (partial by nature): msg_write_within_buffer (for all prefix/body lengths, over MAX_MSG_SIZE and the size expressions regenerated from back/utils.c on every run), use_depth_bounded, outcome_classifier_correct; crash-, hang- and memory-safety of the generated scanner/parser and of the typechecker on arbitrary bytes cannot be stated over an executable model in this sandbox and are observed on ~2.5x10^4 inputs per run, never presented as proof",
+        ref="DESIGN.md §5 C05",
+        note=TB + "; 12 genuine robustness defects of the pinned tree are listed as known findings, 6 were fixed"),
+    "C16": dict(
+        engine="E6 mem / E1 gc",
+        technique="Coq proofs: an executable allocation-trace monitor is sound and complete for balanced / no double free / no free of unknown block, and exact about leaks; gc_delete frees each object exactly once (collector model); malloc-event traces of compile->run->dispose from a --wrap shim judged by the extracted monitor, LeakSanitizer as second opinion",
+        text="proof (partial by nature): monitor_sound_complete, monitor_leak_exact, gc_delete_frees_each_object_once; which source constructs reach which %destructor / *_delete cannot be modelled and is observed: every allocation event of libnev between program_new and program_delete/vm_delete on valid, syntactically broken, ill-typed, reducer-rejected and missing-module sources and all run outcomes",
+        ref="DESIGN.md §5 C16",
+        note=TB + "; exits through exit() inside libnev (stack too large, out of memory, flex fatal) are counted but not judged for leaks; 3 parse-error leaks are known findings"),
     "C02": dict(
         engine="E5 source",
         technique="Coq reference evaluator (Src/Eval.v) with machine-checked theorems for every language rule the property names (operand / argument order, short-circuit, binding shares cells, assignment copies payloads, fuel independence) [+ compiler-correctness theorem for the fragment proved so far]; differential: real compiler+VM vs the extracted evaluator on type-directed generated programs (result, printed text, unhandled exception)",
